@@ -66,9 +66,12 @@ Inductive wstmt :=
 (* the binary operator overloads of LinearSpaceElement *)
 Inductive opname := OAdd | OIAdd | OSub | OISub | ORSub | OMul | OIMul | OTrueDiv | OITrueDiv | ORTrueDiv.
 
-(* what the dispatch can see of a dtype: the type code dtype.char (as its character code) and
-   whether the byte order is native *)
-Record dtinfo := mkdt { dt_char : Z; dt_native : bool }.
+(* what the dispatch can see of an array besides its contiguity: the type code dtype.char (as its
+   character code), whether the byte order is native, and len() *)
+Record dtinfo := mkdt { dt_char : Z; dt_native : bool; dt_len0 : Z }.   (* dt_len0: len(x) = length of axis 0 *)
+(* how _lincomb_impl computes `size`: the number of entries x1.size, or len(x1) = the length of axis 0 *)
+Inductive sizex := SzTotal | SzAxis0.
+Definition size_of (e : sizex) (total len0 : Z) : Z := match e with SzTotal => total | SzAxis0 => len0 end.
 Definition dt_char_in (d : dtinfo) (codes : list Z) : bool := existsb (Z.eqb (dt_char d)) codes.
 (* the dtypes BLAS level 1 updates in place without conversion: NATIVE float32 'f' (102), float64 'd' (100),
    complex64 'F' (70), complex128 'D' (68) -- exactly the table _BLAS_DTYPES (pinned by the translator) *)
